@@ -249,6 +249,21 @@ pub fn live_ids() -> Vec<u32> {
             .collect()
     })
 }
+/// After a drain was leaked with `mem::forget`: every live element that is no longer reachable
+/// (neither in the buffer nor owned by the caller) is gone for good.  It is marked as such, so that it
+/// is not reported as a leak by later steps — and any later touch or drop of it IS reported.
+pub fn forgive_unreachable(reachable: &[u32]) -> usize {
+    with(|l| {
+        let mut n = 0;
+        for id in 1..l.ents.len() as u32 {
+            if l.ents[id as usize].live && !reachable.contains(&id) {
+                l.ents[id as usize].live = false;
+                n += 1;
+            }
+        }
+        n
+    })
+}
 pub fn created() -> u32 {
     with(|l| l.ents.len() as u32 - 1)
 }
